@@ -200,7 +200,7 @@ def o6(tier):
 @guard
 def o7(tier):
     """process_mls_message: mapping of OpenMLS verdicts to the recovery errors"""
-    ob = Ob('O7', 'process_mls_message: WrongEpoch carries the message epoch; OwnCommitPending only for a Commit that cannot be decrypted as own message while a pending commit exists; '
+    ob = Ob('O7', 'process_mls_message: the rollback-eligible WrongEpoch error is raised only for a Commit and carries the message epoch; OwnCommitPending only for a Commit that cannot be decrypted as own message while a pending commit exists; '
                   'group-id mismatch refused before processing', pure=C.PURE_MLS | {'MlsGroup::pending_commit'})
     f = ob.fn(CORE, 'process::process_mls_message')
     paths = ob.explore(f, [Opaque('self', '&MDK<Storage>'), Opaque('group', '&mut openmls::group::MlsGroup'), Opaque('bytes', '&[u8]')])
@@ -229,6 +229,14 @@ def o7(tier):
             v = p.ret.fields[0].fields[0]
             ob.require(bool(ep) and 'as_u64' in uid_of(ob.eng, p.st, v) and uid_of(ob.eng, p.st, ep[0].ret) in uid_of(ob.eng, p.st, v), 'O7/wrong-epoch-value',
                        f'WrongEpoch carries {uid_of(ob.eng, p.st, v)}, not the epoch of the message', p)
+            # ProcessMessageWrongEpoch is the one error handle_processing_error answers with an MIP-03 comparison and possibly a rollback:
+            # only a COMMIT of that epoch competes with the applied commit; a proposal / application message of a past epoch must not get there
+            cte = [e for e in p.trace if ev_is(e, 'ProtocolMessage::content_type')]
+            if ob.require(bool(cte), 'O7/wrong-epoch-any-content-type', 'the rollback-eligible WrongEpoch error is raised without looking at the content type: a late or re-delivered proposal / '
+                          'application message of a past epoch is compared with the applied commit and can roll it back', p):
+                ob.prove(p, cte[0].ret.discriminant() == ct['Commit'], 'O7/wrong-epoch-any-content-type',
+                         'the rollback-eligible WrongEpoch error is raised for a message that is not a Commit: a late or re-delivered proposal / application message of a past epoch '
+                         'is compared with the applied commit and can roll it back')
         if sh[0] == 'Ok':
             ob.require(bool(pm) and derived_from(ob.eng, p.st, p.ret.fields[0], pm[-1]), 'O7/ok-source', 'Ok result is not the processed message', p)
     ob.require(n_own >= 1 and n_we >= 1, 'O7/vacuity', f'own {n_own} wrongepoch {n_we}')
@@ -347,6 +355,31 @@ def o2(tier):
     return ob.done(cases=total)
 
 
+def _shared(fn, oid, title):
+    r = fn()
+    r.oid = oid
+    r.title = title + ' -- ' + r.title[:200]
+    return r
+
+
+def o8(tier):
+    """a fork within the retention depth can only be resolved if the winning commit of the fork epoch can still be decrypted"""
+    from props import C02
+    return _shared(lambda: C02.o1(tier), 'O8', 'shared with C02-O1: the outer-layer decryption window reaches back the full configured look-back, so the winning commit of a fork that deep is not lost before the MIP-03 comparison')
+
+
+def o9(tier):
+    """contract K2 on SQLite"""
+    from props import C09
+    return _shared(lambda: C09.sqlite_restore(tier), 'O9', 'contract K2 (shared with C09-O1): on SQLite the rollback the loser performs restores exactly the pre-commit rows of the group (no stale exporter secret or MLS row of the losing branch survives)')
+
+
+def o10(tier):
+    """contract K2 on the memory backend"""
+    from props import memobs
+    return _shared(lambda: memobs.memory_rollback(tier, 'O10', 'O10'), 'O10', 'contract K2 (shared with C09-O4): on the memory backend the rollback restores exactly the pre-commit state of the group')
+
+
 def run(tier, seed, only=None):
-    obs = [('O1', o1), ('O2', o2), ('O4', o4), ('O5', o5), ('O6', o6), ('O7', o7)]
+    obs = [('O1', o1), ('O2', o2), ('O4', o4), ('O5', o5), ('O6', o6), ('O7', o7), ('O8', o8), ('O9', o9), ('O10', o10)]
     return [f(tier) for k, f in obs if not only or k in only]
